@@ -231,7 +231,7 @@ int main(int argc, char** argv)
     { rec_t b; rec_begin(&b, 100); rec_int(&b, 1); rec_bytes(&b, dictbuf, 70000); rec_write(&b); }   /* blob 1 = dictionary source; dict of size s = its last s bytes */
 
     if (!strcmp(mode, "c05") || !strcmp(mode, "c02") || !strcmp(mode, "c16")) {
-        int nblocks = thorough ? SH(30000) : 1500;
+        int nblocks = thorough ? SH(150000) : 1500;
         int want_invalid = !strcmp(mode, "c02");
         for (i = 0; i < nblocks; i++) {
             size_t ds = dictSizes[rndn(11)]; const u8* dict = dictbuf + (70000 - ds);
@@ -277,11 +277,11 @@ int main(int argc, char** argv)
             }
             free_block(&g);
         }
-        if (!strcmp(mode, "c05")) { int nch = thorough ? SH(6000) : 400; for (i = 0; i < nch; i++) chain_case(thorough); }
+        if (!strcmp(mode, "c05")) { int nch = thorough ? SH(30000) : 400; for (i = 0; i < nch; i++) chain_case(thorough); }
         if (!strcmp(mode, "c02")) {
             /* random strings over an "interesting byte" alphabet, all short lengths */
             static const u8 alpha[] = {0x00,0x01,0x0F,0x10,0x11,0x1F,0x40,0x4F,0xF0,0xF1,0xFF,0x0E,0xE0,0xEF,0xFE,0x02,0x08,0x07,0x80,0x20,0x05,0x0C,0x13,0x50};
-            int nrand = thorough ? SH(400000) : 30000;
+            int nrand = thorough ? SH(2000000) : 30000;
             for (i = 0; i < nrand; i++) {
                 u8 b[64]; size_t n = 1 + rndn(i % 4 == 0 ? 60 : 12), k; g_trueBlk = n; int cap = (int)rndn(i % 3 == 0 ? 400 : 40); size_t ds = dictSizes[rndn(11)]; int pl = (int)rndn(2);
                 int md = ds ? (rndp(50) ? M_USINGDICT : M_PARTIAL_USINGDICT) : (rndp(50) ? M_SAFE : M_PARTIAL);
